@@ -37,6 +37,30 @@ Definition variant (L : nat) (w0 : pwf (GRS L)) (ps : list (result (celem (GRS L
         ++ eresult (eviews L) (rbind (to_wavefront w1 PtPupil) (fun w2 => call L w2 c))
   end.
 
+(* ---- a relay: chain of pupils -> propagate_dft (image plane) -> optional Image plane (e.g. a focal-plane stop)
+   -> propagate_dft back to a pupil plane; the views in every plane, and Wavefront.insert in the last ---- *)
+Definition of_wavefront (L : nat) (w : wavefront (GRS L)) : pwf (GRS L) :=
+  mkPwf (wwl w) (wps w) (match wfocal w with Some q => FVal q | None => FInf end) (Some (wshape w)) (wdata w).
+Definition relay (L : nat) (w0 : pwf (GRS L)) (ps : list (result (celem (GRS L)))) (c1 : callargs)
+           (stop : option (result (celem (GRS L)))) (c2 : callargs) (ins : arr (GRS L) * GRS L) : list Z :=
+  match chain_r L ps w0 with
+  | Err e => [1; errcode e]
+  | Ok w1 =>
+      0 :: eresult (efdata L) (pwf_field w1) ++ eresult (efdata L) (pwf_intensity w1) ++
+      match rbind (to_wavefront w1 PtPupil) (fun w2 => call L w2 c1) with
+      | Err e => [1; errcode e]
+      | Ok wi =>
+          0 :: eviews L wi ++
+          match rbind (match stop with
+                       | None => Ok (of_wavefront L wi)
+                       | Some rp => rbind rp (fun e => elem_multiply e (of_wavefront L wi)) end)
+                      (fun w3 => rbind (to_wavefront w3 PtImage) (fun w4 => call L w4 c2)) with
+          | Err e => [1; errcode e]
+          | Ok wp => 0 :: eviews L wp ++ eresult (earr L) (accumulate (wdata wp) (fst ins) (snd ins))
+          end
+      end
+  end.
+
 (* ---- propagate_fft (Model/Fft.v, property C09) on the wavefront a chain leaves behind; the FFT grid (N0, N1)
    is supplied by the case; scratch: none, or a buffer of the given shape with arbitrary prior content ---- *)
 Record fcall := mkFcall { f_N0 : Z; f_N1 : Z; f_du : Qc * Qc; f_shape : option (Z * Z); f_os : Z; f_scratch : option (Z * Z) }.
@@ -73,6 +97,14 @@ Definition run (inp : list Z) : list Z :=
       | Some (lam, tl, segs, monos, c) =>
           let w0 := pwf_init lam PixNone None tl in     (* Wavefront(lam, tilt=[rx, ry]) carries one Tilt *)
           0 :: variant L w0 segs c ++ variant L w0 monos c
+      | None => emalformed end
+    else if op =? 8 then   (* relay pupil -> image -> (stop) -> pupil, segmented and monolithic *)
+      match pall (lam <- pQ ;; segs <- plist (p_plane L) ;; monos <- plist (p_plane L) ;; c1 <- pcall ;;
+                  stop <- popt (p_plane L) ;; c2 <- pcall ;; out <- parr L ;; wt <- pK L ;;
+                  pret (lam, segs, monos, c1, stop, c2, out, wt)) rest with
+      | Some (lam, segs, monos, c1, stop, c2, out, wt) =>
+          let w0 := pwf_init lam PixNone None [] in
+          0 :: relay L w0 segs c1 stop c2 (out, wt) ++ relay L w0 monos c1 stop c2 (out, wt)
       | None => emalformed end
     else if op =? 7 then   (* the two chains only: the views before any propagation *)
       match pall (lam <- pQ ;; segs <- plist (p_plane L) ;; monos <- plist (p_plane L) ;; pret (lam, segs, monos)) rest with
